@@ -1053,6 +1053,29 @@ def test_projected_3d_clone():
     assert_allclose(subset_state_new.roi.projection_matrix, projection_matrix)
 
 
+def test_chunked_roi_single_element_view():
+
+    # Regression test: ROI tests that are evaluated in chunks (pretransform,
+    # Projected3dROI) failed for views that select a single element
+
+    data = Data(x=np.arange(24.).reshape((2, 3, 4)))
+    px = data.pixel_component_ids
+
+    state = RoiSubsetState(px[2], px[1], RectangularROI(0.5, 2.5, -0.5, 3.5),
+                           pretransform=lambda a, b: (a + 1, b * 2))
+    mask = state.to_mask(data)
+    assert mask.any() and not mask.all()
+    for view in [(0, 1, 1), (1, 2, 3), (-1, 0, 0)]:
+        assert_equal(state.to_mask(data, view=view), mask[view])
+
+    roi_3d = Projected3dROI(RectangularROI(-0.5, 1.5, 0.5, 2.5), np.eye(4))
+    state = RoiSubsetState3d(px[2], px[1], px[0], roi_3d)
+    mask = state.to_mask(data)
+    assert mask.any() and not mask.all()
+    for view in [(0, 1, 1), (1, 2, 3), (-1, 0, 0)]:
+        assert_equal(state.to_mask(data, view=view), mask[view])
+
+
 def test_slice_subset_state():
 
     data1 = Data(x=np.arange(24).reshape((2, 3, 4)))
